@@ -105,7 +105,16 @@ ExtChain(i, n) == IF i > n THEN <<>>
 ExtChainXsd(n) == [name |-> "chain.xsd", kind |-> "xsd", tns |-> "Urich", xmlns |-> << <<"t", "Urich">> >>, items |-> ExtChain(1, n)]
 CONSTANT ChainN
 
-Bases == << [label |-> "ext-chain", start |-> "chain.xsd", files |-> <<ExtChainXsd(ChainN)>>, mutable |-> FALSE, feat |-> {"ref_ladder"}],
+\* members whose field names coincide: the disambiguation loop of the writer must end
+ClashXsd == [name |-> "clash.xsd", kind |-> "xsd", tns |-> "Urich", xmlns |-> << <<"t", "Urich">> >>,
+             items |-> << [k |-> "complex", n |-> "ClashBase", base |-> None0,
+                           content |-> << [k |-> "seq", min |-> 1, max |-> "1", ps |-> << El("id", Str, 1, "1"), El("Id", Str, 0, "1"), El("lang", Str, 0, "1") >>] >>,
+                           attrs |-> << [k |-> "attr", n |-> "id", ty |-> Str, use |-> "opt"], [k |-> "attr", n |-> "ID", ty |-> Str, use |-> "opt"],
+                                        [k |-> "attr", n |-> "lang", ty |-> Str, use |-> "opt"] >>],
+                          [k |-> "complex", n |-> "ClashDerived", base |-> [k |-> "named", p |-> "t", n |-> "ClashBase"],
+                           content |-> <<>>, attrs |-> << [k |-> "attr", n |-> "Lang", ty |-> Str, use |-> "opt"], [k |-> "attr", n |-> "iD", ty |-> Str, use |-> "opt"] >>] >>]
+Bases == << [label |-> "name-clash", start |-> "clash.xsd", files |-> <<ClashXsd>>, mutable |-> TRUE, feat |-> {}],
+            [label |-> "ext-chain", start |-> "chain.xsd", files |-> <<ExtChainXsd(ChainN)>>, mutable |-> FALSE, feat |-> {"ref_ladder"}],
             [label |-> "rich-xsd", start |-> "rich.xsd", files |-> <<RichXsd, OtherXsd>>, mutable |-> TRUE, feat |-> {}],
             [label |-> "wsdl", start |-> "svc.wsdl", files |-> <<SvcWsdl, OtherXsd>>, mutable |-> TRUE, feat |-> {}],
             [label |-> "self-referential", start |-> "selfref.xsd", files |-> <<SelfXsd>>, mutable |-> TRUE, feat |-> {"self_reference", "import_cycle"}],
